@@ -9,6 +9,7 @@ import (
 	"strconv"
 	"sync"
 	"sync/atomic"
+	"time"
 
 	typ "gopkg.in/typ.v4"
 	"verif/lib/enum"
@@ -261,6 +262,51 @@ func (z zeroer) IsZero() bool { return z.A == 5 }
 
 type plain struct{ A int }
 
+// coalTable: Coal over every argument tuple of length 0..3 from vals, for one comparable type; the
+// reference is the definition (the first argument that differs from the zero value under !=, else zero).
+func coalTable[T comparable](tname string, vals []T) {
+	var zero T
+	same := func(a, b T) bool { return a == b || (a != a && b != b) }
+	ref := func(args []T) T {
+		for _, v := range args {
+			if v != zero {
+				return v
+			}
+		}
+		return zero
+	}
+	chk := func(args ...T) {
+		e.Input(len(args) > 1)
+		e.Call()
+		if got, want := typ.Coal(args...), ref(args); !same(got, want) {
+			e.Fail("Coal|result", map[string]any{"type": tname, "args": fmt.Sprint(args)}, "Coal[%s](%v) = %v, want %v (the first argument that is != the zero value)", tname, args, got, want)
+		}
+	}
+	chk()
+	for _, a := range vals {
+		chk(a)
+		for _, b := range vals {
+			chk(a, b)
+			for _, c := range vals {
+				chk(a, b, c)
+			}
+		}
+		// the utility identities on the same values
+		if z := typ.ZeroOf(a); z != zero {
+			e.Fail("ZeroOf|result", map[string]any{"type": tname}, "ZeroOf[%s](%v) = %v", tname, a, z)
+		}
+		if rp := typ.Ref(a); rp == nil || !same(*rp, a) || !same(typ.DerefZero(rp), a) {
+			e.Fail("Ref|result", map[string]any{"type": tname}, "Ref / DerefZero on %s value %v", tname, a)
+		}
+		if !same(typ.Tern(true, a, zero), a) || !same(typ.Tern(false, zero, a), a) {
+			e.Fail("Tern|result", map[string]any{"type": tname}, "Tern on %s value %v", tname, a)
+		}
+	}
+	if typ.Zero[T]() != zero || typ.DerefZero[*T](nil) != zero {
+		e.Fail("Zero|result", map[string]any{"type": tname}, "Zero[%s]() / DerefZero(nil) is not the zero value", tname)
+	}
+}
+
 func main() {
 	ev.GuardFor("C20")
 	r := ev.Start("C20")
@@ -472,6 +518,25 @@ func main() {
 		if typ.Coal[*int](nil, p1, p2) != p1 || typ.Coal[*int](nil, nil) != nil {
 			e.Fail("Coal|result", nil, "Coal on pointers")
 		}
+		// Coal and the identities over more types: a type whose IsZero method disagrees with ==, floats
+		// (NaN is non-zero, negative zero == zero), pointers to zero values, interfaces, time.Time
+		{
+			zi, zs := 0, ""
+			coalTable("zeroer (IsZero method)", []zeroer{{0}, {5}, {1}, {2}})
+			coalTable("*zeroer", []*zeroer{nil, {0}, {5}, {1}})
+			coalTable("float64", []float64{0, math.Copysign(0, -1), math.NaN(), 1, math.Inf(-1)})
+			coalTable("*int", []*int{nil, &zi, new(int)})
+			coalTable("*string", []*string{nil, &zs})
+			coalTable("any", []any{nil, 0, "", zeroer{5}, zeroer{0}, (*int)(nil), &zi, false, 1})
+			coalTable("error", []error{nil, errors.New(""), errors.New("x")})
+			coalTable("time.Time", []time.Time{{}, time.Time{}.In(time.FixedZone("x", 60)), time.Time{}.Local(), time.Unix(0, 0)})
+			coalTable("[2]int", [][2]int{{0, 0}, {0, 1}, {1, 0}})
+			coalTable("struct", []plain{{0}, {1}, {-1}})
+			coalTable("bool", []bool{false, true})
+			coalTable("uint8", []uint8{0, 1, 255})
+			coalTable("string", []string{"", "\x00", " ", "0"})
+			coalTable("chan int", []chan int{nil, make(chan int)})
+		}
 		if typ.Zero[int]() != 0 || typ.Zero[string]() != "" || typ.Zero[*int]() != nil || typ.Zero[plain]() != (plain{}) || typ.Zero[error]() != nil {
 			e.Fail("Zero|result", nil, "Zero[T]() is not the zero value")
 		}
@@ -564,7 +629,7 @@ func main() {
 			}
 		}
 	}
-	e.Finish(fmt.Sprintf("Min/Max/Clamp/Compare/Less/Sum/Product over all pairs and all triples of int8 and uint8 and over all pairs/triples of a boundary set (0, +-1, powers of ten +-1, powers of two +-1, extremes) for every wider integer type, float32/64 (NaN excluded) and string; Digits10/DigitsSign10/Abs/Clamp01 on every value of every 8- and 16-bit type, every 32-bit value with stride %d plus boundaries, boundary sets for 64-bit/int/uint/uintptr; references: strconv, wide arithmetic truncated to the type; complete truth tables for Coal/Zero/ZeroOf/IsZero/Tern/TernCast/Ref/DerefZero/IsNil", stride))
+	e.Finish(fmt.Sprintf("Min/Max/Clamp/Compare/Less/Sum/Product over all pairs and all triples of int8 and uint8 and over all pairs/triples of a boundary set (0, +-1, powers of ten +-1, powers of two +-1, extremes) for every wider integer type, float32/64 (NaN excluded) and string; Digits10/DigitsSign10/Abs/Clamp01 on every value of every 8- and 16-bit type, every 32-bit value with stride %d plus boundaries, boundary sets for 64-bit/int/uint/uintptr; references: strconv, wide arithmetic truncated to the type; Coal/ZeroOf/Ref/DerefZero/Tern over every argument tuple of length 0..3 for 14 types (a type whose IsZero method disagrees with ==, floats with NaN and -0, pointers to zero values, interfaces, errors, time.Time, arrays, channels); complete truth tables for Coal/Zero/ZeroOf/IsZero/Tern/TernCast/Ref/DerefZero/IsNil", stride))
 }
 
 func variadicFloat[T ~float32 | ~float64](name string, gens []func(i int) float64) {
